@@ -13,7 +13,7 @@ From PFGen Require Import MarchTable.
 From PF Require Import March.Grid March.TableProps March.GridProofs March.SurfaceProofs.
 From PF Require Import March.VertexProofs March.Closed March.ClosedProofs March.Blocks March.BlocksProofs.
 From PF Require Import March.Canvas March.CanvasProofs March.Weld March.WeldProofs.
-From PF Require Import March.VolumeProofs March.IsoProofs.
+From PF Require Import March.VolumeProofs March.IsoProofs March.Store March.StoreProofs.
 From PF Require Geom.Vec Geom.SdfSpec.
 From Coq Require Import Qabs Reals.
 Import ListNotations.
@@ -244,8 +244,36 @@ Theorem canvas_closed : forall (A : Type) (below : A -> bool) (store : pt -> Z -
     (countd e (dedges (canvas_surface below store (blocks fields))) <= 1)%nat.
 Proof. exact canvas_closed_all_thm. Qed.
 Print Assumptions canvas_closed.
-(* storage_layout_partial -- NOT proved: that AddField / addFloat1Range establish the storage layout assumed above
-   (accumulation `+=` into zeroed blocks at d.index(shiftedPos)); tied by the correspondence check (reference samples). *)
+(* storage_layout (March/Store.v, StoreProofs.v; was storage_layout_partial).  Model of AddField / addFloat1Range: the
+   store starts as zeroed blocks; AddField visits the blocks of chunkSectionsInRange(fieldBounds) and, per block, the
+   lattice points of the field's sample range clipped to the block (z outermost, x innermost), doing
+   `data[d.index(shiftedPos)] += function(pos)`.  After ANY sequence of AddField calls, for values in any type with
+   any `+`, block b holds at index (index loc) exactly the accumulated value of lattice point 100*b + loc: the values
+   of the fields whose sample range contains the point, added in AddField order (stored_after) -- the layout that
+   canvas_eq_grid / canvas_closed assume. *)
+Theorem storage_layout : forall (V : Type) (vadd : V -> V -> V) (vzero : V) (fs : list (fld * (pt -> V))) (b loc : pt),
+  in_block loc ->
+  add_fields V vadd fs (fun _ _ => vzero) b (index loc) = stored_after V vadd fs vzero (global_cell b loc).
+Proof. exact storage_layout_thm. Qed.
+Print Assumptions storage_layout.
+
+(* End to end, from the AddField calls to the triangles: whatever fields are added (any value type, any accumulation,
+   any sample ranges, negative blocks), if every below-cutoff accumulated sample lies strictly inside the sample box
+   of one of the fields, the triangles marchFloat1 emits from the store that AddField built have every directed edge
+   at most once and its reverse exactly as often. *)
+Theorem canvas_closed_end_to_end :
+  forall (V : Type) (vadd : V -> V -> V) (vzero : V) (below : V -> bool) (fs : list (fld * (pt -> V))),
+  (forall p, below (stored_after V vadd fs vzero p) = true ->
+     exists f, In f (map fst fs) /\ strictly_inside (blo f) (bhi f) p) ->
+  let ts := canvas_surface below (add_fields V vadd fs (fun _ _ => vzero)) (blocks (map fst fs)) in
+  forall e : dedge, countd e (dedges ts) = countd (swap e) (dedges ts) /\ (countd e (dedges ts) <= 1)%nat.
+Proof.
+  intros V vadd vzero below fs H ts e.
+  apply (canvas_closed V below (add_fields V vadd fs (fun _ _ => vzero)) (stored_after V vadd fs vzero) (map fst fs)).
+  - intros blk loc _ Hloc. apply storage_layout_thm. exact Hloc.
+  - exact H.
+Qed.
+Print Assumptions canvas_closed_end_to_end.
 
 (* The oracle used on the implementation's output is sound: iclosedb ts = true implies that every directed
    edge of the index triangle list occurs at most once and its reverse exactly as often. *)
